@@ -42,6 +42,9 @@ def run(ctx):
     RL.check_initialisation(ctx, 'R14.3', T)
     ctx.rule('R14.7', 'the lexer sees the whole input at once: a body cannot be cut at a chunk boundary', floor=3)
     RL.check_whole_text(ctx, 'R14.7')
+    # every rule above reads the lexer through its tables; that the scan loop applies them faithfully is decided by interpretation
+    ctx.rule('R14.S', 'Lexer.get_tokens interpreted on short texts agrees token by token with the rule-table model the other rules use', floor=1)
+    RL.check_scan_semantics(ctx, 'R14.S')
     from .. import rules_stack as RK
     ctx.rule('R14.9', 'the text reaches the lexer as it was given: parse/parsestream/FilterStack.run forward their argument unmodified', floor=10)
     RK.check_parse_pipeline(ctx, 'R14.9')
